@@ -1699,7 +1699,19 @@ func (b *Builder) pathTerm(addr, root ssa.Value, depth int) *Term {
 	}
 	switch x := addr.(type) {
 	case *ssa.IndexAddr:
-		return b.mk("iaddr", "", nil, b.pathTerm(x.X, root, depth), b.of(x.Index, x, depth+2))
+		base, idx := b.pathTerm(x.X, root, depth), b.of(x.Index, x, depth+2)
+		// element k of the view self[lo:…] is element lo+k of the object
+		if base.Op == "slice" && len(base.Args) == 3 && base.Args[0].Op == "self" {
+			if lo, ok := isConstInt(base.Args[1]); ok {
+				if k, okK := isConstInt(idx); okK {
+					return b.mk("iaddr", "", nil, base.Args[0], mkConst(new(big.Int).Add(lo, k), nil))
+				}
+				if lo.Sign() == 0 {
+					return b.mk("iaddr", "", nil, base.Args[0], idx)
+				}
+			}
+		}
+		return b.mk("iaddr", "", nil, base, idx)
 	case *ssa.FieldAddr:
 		return b.mk("faddr", fieldName(x.X.Type(), x.Field), nil, b.pathTerm(x.X, root, depth))
 	case *ssa.Slice:
